@@ -373,6 +373,8 @@ func alterDefaults(run *hx.Run) {
 		{"leadzero", "010"}, {"negleadzero", "-007"}, {"leadzero-real", "01.50"}, {"dotreal", ".5"}, {"trailing-dot", "5."},
 		{"int-beyond-int64", "9223372036854775808"}, {"negexp", "1e-2"}, {"leadzero-str", "'010'"}, {"spaced-numstr", "' 12 '"},
 		{"hexstr", "'0x10'"}, {"expstr", "'1e3'"}, {"infstr", "'Inf'"}, {"nanstr", "'nan'"}, {"hexfloatstr", "'0x1p4'"}, {"underscore-str", "'1_000'"},
+		{"nbsp-numstr", "'\u00a012'"}, {"below-int64-str", "'-9223372036854775809'"}, {"above-int64-str", "'9223372036854775808'"},
+		{"huge-exp-str", "'1e400'"}, {"neg-huge-exp-str", "'-1e400'"}, {"int64-min-str", "'-9223372036854775808'"}, {"tab-numstr", "'\t7\n'"},
 	}
 	path := dir + "/alter.sqlite"
 	var stmts []string
